@@ -57,7 +57,7 @@ func c19Check(r *ev.Run, name string, data []byte, uniform int, key string) (lab
 func C19(tier string) {
 	r := ev.Begin("C19", tier, "exploration")
 	r.NotExhaustive()
-	r.Rule("differential over: the C05 header grammar (18k files), the C06 size/order/damage files, every truncation and EVERY single-byte substitution (255 values x every position) of the small format seeds (incl. a JPEG with short segments after its frame header), the corrupt seeds, polyglots (first k=1..12 bytes of each format followed by each other format's complete file; signature + junk; SOI without SOF + 64 KiB; RIFF/WEBP + unknown chunk; one format's file appended to another's), the repository images; each all at once and 1 byte per call; distinct = distinct inputs")
+	r.Rule("differential over: the C05 header grammar (18k files), the C06 size/order/damage files, every truncation and EVERY single-byte substitution (255 values x every position) of the small format seeds (incl. a JPEG with short segments after its frame header), the corrupt seeds, polyglots (first k=1..12 bytes of each format followed by each other format's complete file; signature + junk; SOI without SOF + 64 KiB; RIFF/WEBP + unknown chunk; one format's file appended to another's), the repository images; each all at once and 1 byte per call; every sequence of up to 4 (thorough 5) operations {Load(auto or specific, file), drain(earlier stream)} over five small files; distinct = distinct inputs")
 	r.Assume("'succeeds' = returns metadata and a nil error on the complete input read from its first byte; ICC outcome compared as bytes / absent / error presence")
 
 	var inputs []Case
@@ -183,6 +183,11 @@ func C19(tier string) {
 		r.Eval(evals)
 		r.DistinctN(evals - evals/129)
 	})
+	sd := 4
+	if tier == "thorough" {
+		sd = 5
+	}
+	loaderSequences(r, sd, "sequence", true, true)
 	r.DistinctN(int64(len(inputs)))
 	oc := map[string]int64{}
 	for k, v := range outcomes {
